@@ -34,6 +34,12 @@ pub fn name_str(v: &Value) -> String {
 
 /// serialise one call's events; `variant` selects among equivalent ways to provoke a fault
 pub fn serialize(events: &[Value], variant: usize) -> Doc {
+    serialize_salted(events, variant, 0)
+}
+
+/// `salt` selects other (non-empty) attribute values and character data: 0 = vN/tN/cN tokens,
+/// 1 = longer values with entities, 2 = whitespace-only text and values
+pub fn serialize_salted(events: &[Value], variant: usize, salt: usize) -> Doc {
     let mut out: Vec<u8> = Vec::new();
     let mut stack: Vec<String> = Vec::new();
     let mut cfg = ReaderCfg::default_cfg();
@@ -41,7 +47,11 @@ pub fn serialize(events: &[Value], variant: usize) -> Doc {
     let mut n = 0usize;
     let mut tok = |p: &str, tokens: &mut Vec<String>| {
         n += 1;
-        let t = format!("{}{}", p, n);
+        let t = match salt {
+            0 => format!("{}{}", p, n),
+            1 => format!("other {} &lt;{}&gt; value", p, n * 7),
+            _ => "  ".to_string(),
+        };
         tokens.push(t.clone());
         t
     };
